@@ -6,14 +6,17 @@ import itertools
 TR = {'o': 'cleared', 'x': 'failed', 'p': 'passed', 'r': 'retired'}
 LET = {'o': 'o', 'x': 'x', 'p': '-', 'r': 'r'}
 
-def new_comp(athlib, float_heights=False):
-    """float_heights: bar heights are passed as Python floats (as the unit tests do) instead of Decimal"""
+def new_comp(athlib, float_heights=False, scale=100):
+    """float_heights: bar heights are passed as Python floats (as the unit tests do) instead of Decimal;
+    scale: the integer heights of the ops are 1/scale metres (1000: millimetre heights, e.g. converted imperial marks)"""
     c = athlib.HighJumpCompetition()
     c._verif_float = float_heights
+    c._verif_scale = scale
     return c
 
+_SCALE = [100]
 def _c(v):
-    return int(round(v * 100))
+    return int(round(v * _SCALE[0]))
 
 def apply_op(athlib, c, op):
     """op = ('add', bib:int) | ('bar', h:int hundredths) | ('trial', bib:int, t in 'oxpr'); returns outcome string"""
@@ -24,7 +27,8 @@ def apply_op(athlib, c, op):
             if op[1] == 0: c.add_jumper()                      # no bib given: the library files the athlete under its default bib '0'
             else: c.add_jumper(bib=str(op[1]))
         elif op[0] == 'bar':
-            c.set_bar_height(op[1] / 100.0 if getattr(c, '_verif_float', False) else D(op[1]) / 100)
+            sc = getattr(c, '_verif_scale', 100)
+            c.set_bar_height(op[1] / float(sc) if getattr(c, '_verif_float', False) else D(op[1]) / sc)
         else:
             getattr(c, TR[op[2]])(str(op[1]))
         return 'ok'
@@ -40,6 +44,7 @@ def apply_op(athlib, c, op):
 def snap(c):
     """everything C02 calls observable: state, heights, every card, best, place, remaining/eliminated lists,
     action log, trials"""
+    _SCALE[0] = getattr(c, '_verif_scale', 100)
     js = []
     for j in c.jumpers:
         js.append('%s:%s:%d:%s' % (j.bib, j.place if j.place != '' else '-', _c(j.highest_cleared),
@@ -69,7 +74,7 @@ def fmt_ops(ops):
         else: out.append('%s %d' % (TR[op[2]], op[1]))
     return out
 
-def replay_py(ops, float_heights=False):
+def replay_py(ops, float_heights=False, scale=100):
     """python statements that rebuild the history on the real object"""
     L = ['from decimal import Decimal as D', 'c = athlib.HighJumpCompetition()', 'log = []', 'def _do(f, *a):',
          '    try: f(*a); log.append("ok")', '    except Exception as e: log.append(type(e).__name__)']
@@ -77,7 +82,8 @@ def replay_py(ops, float_heights=False):
         if op[0] == 'peek': L.append("_do(c.to_matrix)")
         elif op[0] == 'add' and op[1] == 0: L.append("_do(lambda: c.add_jumper())")
         elif op[0] == 'add': L.append("_do(lambda: c.add_jumper(bib=%r))" % str(op[1]))
-        elif op[0] == 'bar' and float_heights: L.append("_do(c.set_bar_height, %r)" % (op[1] / 100.0))
+        elif op[0] == 'bar' and float_heights: L.append("_do(c.set_bar_height, %r)" % (op[1] / float(scale)))
+        elif op[0] == 'bar' and scale != 100: L.append("_do(c.set_bar_height, D(%r) / %d)" % (str(op[1]), scale))
         elif op[0] == 'bar': L.append("_do(c.set_bar_height, D(%r))" % ('%.2f' % (op[1] / 100)))
         else: L.append("_do(c.%s, %r)" % (TR[op[2]], str(op[1])))
     L.append("result = (log, c.state, [(j.bib, j.place, str(j.highest_cleared), j.attempts_by_height) for j in c.jumpers])")
